@@ -1127,8 +1127,69 @@ func c18ArgumentRoles(w *World, r *Report) {
 	}
 	seen := map[string]bool{}
 	sp := w.SSAPkg("schema")
+	isChecker := func(c *ssa.Call) bool {
+		if c.Call.IsInvoke() {
+			return false
+		}
+		v := c.Call.Value
+		if ld, ok := v.(*ssa.UnOp); ok && ld.Op == token.MUL {
+			if _, isFA := ld.X.(*ssa.FieldAddr); isFA {
+				v = ld // the checker carried in a field of the walk's state
+				_, isSig := v.Type().Underlying().(*types.Signature)
+				return isSig
+			}
+		}
+		if p, ok := v.(*ssa.Parameter); ok {
+			_, isSig := p.Type().Underlying().(*types.Signature)
+			return isSig
+		}
+		return false
+	}
+	// the pair that walks node → choice → case → node below IsActiveDefault, by role when the names are gone
+	activePair := func() (node, choice *ssa.Function) {
+		node, choice = ssaFuncNamed(sp, "isActiveDefault"), ssaFuncNamed(sp, "isActiveDefaultCase")
+		if node != nil && choice != nil {
+			return
+		}
+		entry := ssaFuncNamed(sp, "IsActiveDefault")
+		if entry == nil {
+			return nil, nil
+		}
+		inPkg := func(f *ssa.Function) []*ssa.Function {
+			var out []*ssa.Function
+			for g := range calleesDeep(f, 0) {
+				if g.Pkg == f.Pkg && g.Blocks != nil && g != f {
+					out = append(out, g)
+				}
+			}
+			return out
+		}
+		var firsts []*ssa.Function
+		for _, g := range inPkg(entry) {
+			for _, h := range inPkg(g) {
+				for _, back := range inPkg(h) {
+					if back == g {
+						firsts = append(firsts, g)
+						choice = h
+					}
+				}
+			}
+		}
+		if len(firsts) != 1 {
+			return nil, nil
+		}
+		return firsts[0], choice
+	}
 	for _, fn := range []string{"hasMandatoryChildren", "hasCaseMandatoryChildren", "checkMandatory", "isActiveDefault", "isActiveDefaultCase"} {
 		f := ssaFuncNamed(sp, fn)
+		if f == nil && strings.HasPrefix(fn, "isActiveDefault") {
+			n, c := activePair()
+			if fn == "isActiveDefault" {
+				f = n
+			} else {
+				f = c
+			}
+		}
 		if f == nil {
 			panic(undecided{"schema." + fn})
 		}
@@ -1147,10 +1208,8 @@ func c18ArgumentRoles(w *World, r *Report) {
 				}
 				if sc := c.Call.StaticCallee(); sc != nil && (nm(sc) == "isAChoice" || nm(sc) == "isACaseChoice") {
 					sites = append(sites, site{fn + ": " + nm(sc), c.Call.Args, c.Pos()})
-				} else if p, ok := c.Call.Value.(*ssa.Parameter); ok && !c.Call.IsInvoke() {
-					if _, isSig := p.Type().Underlying().(*types.Signature); isSig {
-						sites = append(sites, site{fn + ": cfg checker", c.Call.Args, c.Pos()})
-					}
+				} else if isChecker(c) {
+					sites = append(sites, site{fn + ": cfg checker", c.Call.Args, c.Pos()})
 				}
 			}
 		}
